@@ -1,4 +1,5 @@
 import JjModel.Lemmas.Annotate
+import JjModel.Lemmas.AnnotateResolved
 /-!
   C38 — Annotations blame the commit that introduced each line.
 
@@ -8,9 +9,11 @@ import JjModel.Lemmas.Annotate
   `heads | (domain & ::heads & files(path))`, `texts[c]` the lines of the file at commit `c`,
   `diffs` the abstract line diff (matching ranges per (commit, ancestor) pair).
 
-  The only hypothesis is `diffsSound texts diffs = true`: every matching range pairs equal lines,
-  lies inside both files, and the ranges ascend — checked by the driver (and independently by the
-  harness against the real texts) on every request.
+  The only hypothesis about the diff is `diffsSound texts diffs = true`: every matching range pairs
+  equal lines, lies inside both files, and the ranges ascend — checked by the driver (and
+  independently by the harness against the real texts) on every request. The theorems about the walk
+  assume a well-formed DAG (`wfB G`, checked by the driver) and, for `err_origin_not_searched`, that
+  the starting commit is a commit of `G` and of `S` (`S = heads | …` by construction).
 
   * `annotation_text`           — the annotated text is the file at the start commit, with exactly one
                                   origin per line;
@@ -21,10 +24,14 @@ import JjModel.Lemmas.Annotate
   * `origin_not_from_parents`   — a resolved (`Ok`) line was left unmatched by the diff against
                                   **every edge the search walked from the blamed commit**
                                   (direct, indirect and missing edges of the searched graph).
-  What is *not* provable, because it is false for the code (see notes/C38.md, known findings):
-  "… against every parent inside the domain" (transitive edges are skipped by the walk) and
-  "every line whose originator is inside the domain is resolved" (`num_unresolved_roots` is
-  incremented per edge, which can stop the walk early).
+  * `err_origin_not_searched`   — an unresolved (`Err`) origin is never a commit of the searched set:
+                                  when the walk stops (early exit `commit_source_map.len() ==
+                                  num_unresolved_roots` included) no searched commit has pending lines.
+                                  True since `/repo` a594350 (an omitted parent is counted as an
+                                  unresolved root once); with the per-edge count it was false.
+  What is *not* provable, because it is false for the code (see notes/C38.md, known findings F10, F11):
+  "… against every parent inside the domain" (the walk sees only the graph of the commits that touch
+  the file, with transitive edges skipped).
 -/
 namespace JjModel.C38
 open JjModel.Dag JjModel.Graph JjModel.Annotate
@@ -85,6 +92,24 @@ theorem ok_origin_is_searched (hsound : diffsSound texts diffs = true) {j : Nat}
   obtain ⟨h1, h2, _⟩ := mem_graphOf.1 hes
   exact ⟨h2, h1, es, hes⟩
 
+/-- **An unresolved origin lies outside the searched set**: if line `j` is reported `Err(c, k)` then
+`c ∉ S` (it is the target of a missing edge). In particular no line keeps its initial value
+`Err(start, j)`, and a line that the walk can trace to a searched commit is resolved there: the early
+exit of `process_commits` never leaves pending lines behind. Hypotheses: the starting commit is a
+commit of the graph and belongs to the searched set (`S = heads | …`). -/
+theorem err_origin_not_searched (hwf : wfB G = true) (hS : start ∈ S) (hlt : start < G.length)
+    {j : Nat} {o : Origin} (h : (annotate G S start texts diffs).1[j]? = some o)
+    (herr : o.ok = false) : o.commit ∉ S :=
+  processNodes_resolved (wfB_iff.1 hwf) _ (rest_init G S) (initState_pinv hS hlt _) j o h herr
+
+/-- the same, read the other way: an origin at a searched commit is resolved -/
+theorem searched_origin_is_resolved (hwf : wfB G = true) (hS : start ∈ S) (hlt : start < G.length)
+    {j : Nat} {o : Origin} (h : (annotate G S start texts diffs).1[j]? = some o)
+    (hin : o.commit ∈ S) : o.ok = true := by
+  cases hok : o.ok with
+  | true => rfl
+  | false => exact absurd hin (err_origin_not_searched hwf hS hlt h hok)
+
 /-! ### non-vacuity -/
 
 /-- root; `1`: "a b"; `2` (child of 1): "a c b"; `3` (child of 2): "x a c b" -/
@@ -102,12 +127,14 @@ left unresolved at commit 1 -/
 example : annotate g3 [2, 3] 3 t3 d3 =
     ([⟨true, 3, 0⟩, ⟨false, 1, 0⟩, ⟨true, 2, 1⟩, ⟨false, 1, 1⟩], [9, 1, 3, 2]) := by decide
 
-/-- the early stop recorded as known finding
-`annotate:line-left-unresolved-at-start-after-root-counted-twice`, reproduced in the model:
+/-- the history of the repaired defect
+`annotate:line-left-unresolved-at-start-after-root-counted-twice` (`num_unresolved_roots` used to
+be incremented per missing edge, `/repo` a594350 counts an omitted parent once):
 `t = 1` "a d", `x = 2` "b", `c1 = 3 = merge(t, x)` "a b", `c2 = 4` (child of `t`) "a d c",
-`h = 5 = merge(c1, c2)` "a b d c", searched set `{2,3,4,5}` (domain `t..h`):
-line "b" keeps its initial value `Err(5, 1)` although its originator `x` is in the searched set;
-with the whole history searched it is `Ok(2, 0)`. -/
+`h = 5 = merge(c1, c2)` "a b d c", searched set `{2,3,4,5}` (domain `t..h`): both `c1` and `c2` have a
+missing edge to `t`, which is one unresolved root; the walk goes on to `x` and line "b" is
+`Ok(2, 0)` exactly as with the whole history searched (the per-edge count stopped the walk after
+`c1` and left "b" at its initial value `Err(5, 1)`). -/
 def gF : Graph := [[], [0], [0], [1, 2], [1], [3, 4]]
 def tF : List (List Nat) := [[], [1, 4], [2], [1, 2], [1, 4, 3], [1, 2, 4, 3]]
 def dF : Diffs := [((3, 1), [(0, 0, 1)]), ((3, 2), [(1, 0, 1)]), ((4, 1), [(0, 0, 2)]),
@@ -116,8 +143,11 @@ def dF : Diffs := [((3, 1), [(0, 0, 1)]), ((3, 2), [(1, 0, 1)]), ((4, 1), [(0, 0
 
 example : diffsSound tF dF = true := by decide
 
+/-- the hypotheses of `err_origin_not_searched` hold for this history and `Err` origins occur -/
+example : wfB gF = true ∧ 5 ∈ [2, 3, 4, 5] ∧ 5 < gF.length := by decide
+
 example : (annotate gF [2, 3, 4, 5] 5 tF dF).1 =
-    [⟨false, 1, 0⟩, ⟨false, 5, 1⟩, ⟨false, 1, 1⟩, ⟨true, 4, 2⟩] := by decide
+    [⟨false, 1, 0⟩, ⟨true, 2, 0⟩, ⟨false, 1, 1⟩, ⟨true, 4, 2⟩] := by decide
 
 example : (annotate gF [1, 2, 3, 4, 5] 5 tF dF).1 =
     [⟨true, 1, 0⟩, ⟨true, 2, 0⟩, ⟨true, 1, 1⟩, ⟨true, 4, 2⟩] := by decide
